@@ -637,24 +637,27 @@ func (p *PolicyManager) createIPSet(newIPSetMap map[string]*ipsetTable) error {
 		oldEntriesSet := sets.NewString(oldEntries...)
 		newEntries := sets.NewString()
 		for _, entry := range set.entries {
-			newEntryStr := strings.Join(append([]string{entry.String()}, entry.Options...), " ")
-			newEntries.Insert(newEntryStr)
-			if oldEntriesSet.Has(newEntryStr) {
-				continue
-			}
-			if err := p.ipsetHandle.AddEntryWithOptions(&entry, &set.IPSet, true); err != nil {
-				glog.Warningf("failed to add entry %v: %v", entry, err)
-			}
+			newEntries.Insert(strings.Join(append([]string{entry.String()}, entry.Options...), " "))
 		}
 		glog.V(5).Infof("old entries %s, new entries %s", strings.Join(oldEntries, ","),
 			strings.Join(newEntries.List(), ","))
-		// clean up stale entries
+		// clean up stale entries first: a member whose options changed (an ipBlock cidr that became an except, or
+		// back) is listed in its old form, and deleting that after the add would remove the member just added
 		for _, old := range oldEntries {
 			if !newEntries.Has(old) {
 				parts := strings.Split(old, " ")
 				if err := p.ipsetHandle.DelEntryWithOptions(name, parts[0], parts[1:]...); err != nil {
 					glog.Warningf("failed to del entry %s from set %s: %v", old, name, err)
 				}
+			}
+		}
+		for _, entry := range set.entries {
+			newEntryStr := strings.Join(append([]string{entry.String()}, entry.Options...), " ")
+			if oldEntriesSet.Has(newEntryStr) {
+				continue
+			}
+			if err := p.ipsetHandle.AddEntryWithOptions(&entry, &set.IPSet, true); err != nil {
+				glog.Warningf("failed to add entry %v: %v", entry, err)
 			}
 		}
 	}
